@@ -111,7 +111,7 @@ def judge(case, ctx):
         if be == "-python-native" and "pn.namespace_class" in avoid and case["raw"].get("ns"):
             opts["no_namespace"] = True
             avoided.append("avoided.pn.namespace_class")
-        raw_ = hgen.with_arith_family(case["raw"]) if "-true-names" not in flags else case["raw"]
+        raw_ = hgen.with_member_defaults(hgen.with_arith_family(case["raw"])) if "-true-names" not in flags else case["raw"]
         lib = hgen.build(raw_, opts)
         if avoid and (hgen.build(raw_, dict(opts, avoid=())).features - lib.features):
             avoided += ["avoided." + t for t in sorted(hgen.build(raw_, dict(opts, avoid=())).features - lib.features)]
